@@ -420,6 +420,59 @@ func concMode(args []string) {
 	fmt.Fprintf(w, "{\"runs\":%d,\"complete\":%v}\n", runs, complete)
 }
 
+// stress <proto> <iterations> <exchanges>: free-running goroutines (no scheduler), both
+// directions started together; counts runs whose items differ from the expected pairs.
+func stressMode(args []string) {
+	proto := args[0]
+	iters, _ := strconv.Atoi(args[1])
+	nx, _ := strconv.Atoi(args[2])
+	bad := 0
+	var firstBad *result
+	for it := 0; it < iters; it++ {
+		wd := newWorld(proto, []int{1})
+		var wg sync.WaitGroup
+		start := make(chan struct{})
+		for _, isClient := range []bool{true, false} {
+			isClient := isClient
+			r := wd.reader(1, isClient)
+			for k := 0; k < nx; k++ {
+				pid := 100 + k
+				if !isClient {
+					pid = 200 + k
+				}
+				r.Chunks = append(r.Chunks, encode(proto, isClient, pid))
+			}
+			wg.Add(1)
+			go func() {
+				defer wg.Done()
+				defer func() { recover() }()
+				<-start
+				wd.ext.Dissector.Dissect(bufio.NewReader(r), r)
+			}()
+		}
+		close(start)
+		wg.Wait()
+		res := wd.collect()
+		ok := len(res.Items) == nx && len(res.Residue) == 0
+		seen := map[int]bool{}
+		for _, i := range res.Items {
+			if i.Resp-i.Req != 100 || seen[i.Req] || !i.Oriented {
+				ok = false
+			}
+			seen[i.Req] = true
+		}
+		if !ok {
+			bad++
+			if firstBad == nil {
+				r := res
+				firstBad = &r
+			}
+		}
+	}
+	b, _ := json.Marshal(map[string]interface{}{"iterations": iters, "bad": bad, "first_bad": firstBad})
+	fmt.Println(string(b))
+}
+
 func main() {
 	if len(os.Args) < 2 {
 		fmt.Fprintln(os.Stderr, "usage: vh-match seq | conc <proto> <maxRuns> <threads...>")
@@ -430,6 +483,8 @@ func main() {
 		seqMode()
 	case "conc":
 		concMode(os.Args[2:])
+	case "stress":
+		stressMode(os.Args[2:])
 	default:
 		os.Exit(2)
 	}
